@@ -2399,6 +2399,8 @@ fn main() {
             "at most 3 deviations from the default environment per execution (2 in quick); at most 3 concurrent requests (one 6-request two-wave stream case with 4 concurrent)",
             "stream timeouts run on tokio's paused clock (feature verif-hooks of /repo); budget of a stream request = response_timeout + 1 ms from submission (1 ms timer resolution and the transport's strict `elapsed > response_timeout`)",
             "the time step that lands exactly on timer start + 19 s (effective response timeout) is not offered: Transport::run then loops on a zero-length sleep until the clock moves, which never happens under the frozen clock (artefact of the paused clock, not counted as a violation); step lengths are chosen so that no sum of steps hits that instant; a watchdog (30 s) reports any execution that does not terminate",
+            "stream lateness is classified: messages arriving later than a request's start restart the connection-wide timer (known finding, own signature); once the connection has been silent for response_timeout the request must be gone (signature ...|connection-silent-for-response-timeout)",
+            "dgram: time steps never cross a receive deadline (a step is cut at the next deadline), so the budget (1+max_retries)*read_timeout from the first transmission is exact; half-read-timeout steps allow stray datagrams between partial advances",
             "main stream timing cases configure response_timeout = 19 s (the library default) and idle_timeout = 300 ms; two cases configure 1 s to check that the configured value is honoured",
             "redundant and load_balancer are not covered (rand-based probing makes executions irreproducible); the private Queries table is driven only through the stream transport",
             "random request IDs (dgram) are read back from the bytes written; stale/wrong IDs sent by the mock are forced to differ from the current ID so the execution structure does not depend on the random draw",
